@@ -26,6 +26,7 @@ the function has exactly the defect looked for.
 """
 import copy
 import time
+import signal
 import pickle
 import base64
 import functools
@@ -34,6 +35,10 @@ import numpy as np
 from vlib.monitors import SUSPEND
 
 MAX_BYTES = 4 << 20
+
+
+class ProtocolTimeout(BaseException):
+    """the monitor's own calls used up their CPU allowance (mixed contents can be pathological for the function)"""
 
 
 def _sig(v, depth=0):
@@ -202,6 +207,7 @@ class BufferReuse:
         self.attached = {}         # label -> the monitor's way of calling the function (used by replay_witness)
         self.exhaustive = False    # replays: every call takes part (sampling by `every` / per_case depends on what ran before)
         self.per_case = 6          # at most this many differentials-bearing calls per case (cost bound)
+        self.protocol_cpu_s = 1.0  # CPU allowance of one protocol (all its calls); beyond it the protocol is abandoned, not judged
         self.max_call_s = 0.02     # calls that cost more CPU than this are left alone (the protocol repeats a call ~10 times)
         self.used = 0
 
@@ -217,7 +223,8 @@ class BufferReuse:
         self.fails, self.counts, self.sequence = [], {}, None
         return f, c, s
 
-    def attach(self, rec, owner, name, label=None, every=1, own=False, key=None, init=False, skip=None, max_variants=3):
+    def attach(self, rec, owner, name, label=None, every=1, own=False, key=None, init=False, skip=None, max_variants=3,
+               partial=True):
         """rec: the check's Recorder (for unwrap_all); key(result) -> comparable; init=True for ``__init__`` (a new instance is
         made for every monitor call and its state after the call is what is compared); skip(args, kwargs) -> True for calls the
         monitor must leave alone."""
@@ -305,11 +312,27 @@ class BufferReuse:
                         pass
                 SUSPEND[0] += 1
                 mon.in_protocol = True
+                old_handler = signal.getsignal(signal.SIGVTALRM)
+                rem = signal.getitimer(signal.ITIMER_VIRTUAL)[0]
+                tp = time.process_time()
+
+                def _out_of_cpu(signum, frame):
+                    raise ProtocolTimeout()
                 try:
-                    mon._protocol(label, sig, pre, len(a), names, call, own, max_variants)
+                    signal.signal(signal.SIGVTALRM, _out_of_cpu)
+                    signal.setitimer(signal.ITIMER_VIRTUAL, min(rem, mon.protocol_cpu_s) if rem > 0 else mon.protocol_cpu_s)
+                    mon._protocol(label, sig, pre, len(a), names, call, own, max_variants if partial else 1)
+                except ProtocolTimeout:
+                    mon.count('brd_protocols_abandoned_out_of_cpu')
+                    mon.store.pop(sig, None)
+                    slow[0] = 50
                 except Exception as e:
                     mon.count('brd_protocol_gave_up:%s' % type(e).__name__)
                 finally:
+                    signal.setitimer(signal.ITIMER_VIRTUAL, 0)
+                    signal.signal(signal.SIGVTALRM, old_handler)
+                    if rem > 0:
+                        signal.setitimer(signal.ITIMER_VIRTUAL, max(rem - (time.process_time() - tp), 0.05))
                     SUSPEND[0] -= 1
                     mon.in_protocol = False
                 return r
